@@ -19,6 +19,9 @@ import (
 	"mellium.im/xmpp"
 	"mellium.im/xmpp/jid"
 	"mellium.im/xmpp/stream"
+	xmppws "mellium.im/xmpp/websocket"
+
+	"golang.org/x/net/websocket"
 
 	"verifharness/common"
 )
@@ -39,7 +42,8 @@ type item struct {
 //	       A<from> (no 'to') or A<from>.<loc>.<dom>.<res>; see hdrFromKinds, addr
 //	L…     features list, items id.req.ok joined by '+'
 //	P F    <proceed/> <failure/> (TLS namespace)
-//	E      <stream:error/>
+//	E      <stream:error/> (relies on the prefix the stream header declared)
+//	D      <stream:error xmlns:stream='…'/>: declares the stream namespace itself
 //	G      another element in the TLS namespace
 //	O      an element in a foreign namespace
 //	W      white space
@@ -54,6 +58,81 @@ type unit struct {
 	from  int
 	hasTo bool
 	to    addr
+	// pad > 0 (kinds O and W): that many extra bytes — an oversized unit.  The model does not see
+	// sizes; it sees the segmentation the decoder's bounded reads induce (scenario.induced).
+	pad int
+}
+
+// readAhead: the size of the bufio.Reader encoding/xml reads a connection through
+const readAhead = 4096
+
+// padString: the unit with its size (only in the #oversized comment of a case, for the replay)
+func (u unit) padString() string {
+	if u.pad > 0 {
+		return u.String() + "~" + strconv.Itoa(u.pad)
+	}
+	return u.String()
+}
+
+func (sc scenario) hasPad() bool {
+	for _, seg := range sc.clear {
+		for _, u := range seg {
+			if u.pad > 0 {
+				return true
+			}
+		}
+	}
+	return false
+}
+
+// spelled: the bytes of every unit of the clear-text script, as exec sends them
+func (sc *scenario) spelled() [][][]byte {
+	// an XML declaration is only legal at the very start of a document: a header that
+	// follows white space is spelled without one
+	prevW := false
+	var out [][][]byte
+	for _, seg := range sc.clear {
+		var us [][]byte
+		for _, u := range seg {
+			if u.kind == 'H' && u.ok && prevW {
+				u.variant = 1
+			}
+			prevW = u.kind == 'W'
+			us = append(us, u.bytes(sc))
+		}
+		out = append(out, us)
+	}
+	return out
+}
+
+// induced: the segmentation of the clear-text script that the decoder's reads induce.  A segment
+// is what the peer sends at once; the decoder reads it through a buffer of readAhead bytes that it
+// fills when it is empty, so a longer segment arrives as several reads, and a unit belongs to the
+// read that completes it (Model/ByteDecoder.lean: boundedReads, absChunks).  Without oversized
+// units every segment fits into one read.
+func (sc scenario) induced() [][]unit {
+	if !sc.hasPad() {
+		return sc.clear
+	}
+	sp := sc.spelled()
+	var out [][]unit
+	for i, seg := range sc.clear {
+		var chunks [][]unit
+		off := 0
+		for k, u := range seg {
+			off += len(sp[i][k])
+			n := 0
+			if off > 0 {
+				n = (off - 1) / readAhead
+			}
+			for len(chunks) <= n {
+				chunks = append(chunks, nil)
+			}
+			chunks[n] = append(chunks[n], u)
+		}
+		out = append(out, chunks...)
+	}
+	return out
 }
 
 // addr is an address of the universe the peer picks the 'to' of its stream headers from,
@@ -160,7 +239,23 @@ func (u unit) String() string {
 
 type pu struct {
 	junk bool
+	// cert != 0 (junk is set as well): instead of junk below the layer, the peer answers the
+	// ClientHello with a certificate the client must not accept: 1 — issued by the CA the client
+	// trusts, but for another name; 2 — for the right names, issued by a CA it does not know.
+	// Spelled C1 / C2 on the line; to the model it is what junk is: bytes that do not make a
+	// handshake the client accepts.
+	cert int
 	u    unit
+}
+
+var certKinds = []string{"", "valid certificate for another name", "certificate of an unknown CA"}
+
+// badCert: the scenario's TLS phase begins with a certificate that must be refused
+func (sc *scenario) badCert() int {
+	if len(sc.prot) > 0 {
+		return sc.prot[0].cert
+	}
+	return 0
 }
 
 type other struct {
@@ -225,12 +320,18 @@ type scenario struct {
 	split []int
 }
 
-func (sc scenario) clearField() string {
+func (sc scenario) clearField() string { return clearFieldOf(sc.induced(), false) }
+
+func clearFieldOf(clear [][]unit, pads bool) string {
 	var segs []string
-	for _, s := range sc.clear {
+	for _, s := range clear {
 		var us []string
 		for _, u := range s {
-			us = append(us, u.String())
+			if pads {
+				us = append(us, u.padString())
+			} else {
+				us = append(us, u.String())
+			}
 		}
 		if len(us) > 0 {
 			segs = append(segs, strings.Join(us, ","))
@@ -242,7 +343,9 @@ func (sc scenario) clearField() string {
 func (sc scenario) protField() string {
 	var us []string
 	for _, p := range sc.prot {
-		if p.junk {
+		if p.cert != 0 {
+			us = append(us, "C"+strconv.Itoa(p.cert))
+		} else if p.junk {
 			us = append(us, "J")
 		} else {
 			us = append(us, p.u.String())
@@ -262,6 +365,11 @@ func (sc scenario) othersField() string {
 // parsing (used by replay)
 
 func parseUnit(s string) (unit, error) {
+	if i := strings.IndexByte(s, '~'); i > 0 {
+		u, err := parseUnit(s[:i])
+		u.pad, _ = strconv.Atoi(s[i+1:])
+		return u, err
+	}
 	if s == "" {
 		return unit{}, fmt.Errorf("empty unit")
 	}
@@ -305,7 +413,7 @@ func parseUnit(s string) (unit, error) {
 			u.items = append(u.items, item{id: id, req: p[1] == "1", ok: p[2] == "1"})
 		}
 		return u, nil
-	case 'P', 'F', 'E', 'G', 'O', 'W', 'M':
+	case 'P', 'F', 'E', 'D', 'G', 'O', 'W', 'M':
 		if len(s) == 1 {
 			return unit{kind: s[0]}, nil
 		}
@@ -320,7 +428,7 @@ func parseScenario(f []string) (sc scenario, err error) {
 		return sc, fmt.Errorf("short run line")
 	}
 	sc.tee, _ = strconv.Atoi(f[0])
-	sc.ck = sc.tee / 4 % 4 // the field carries tee + 4*kind
+	sc.ck = sc.tee / 4 % len(connKinds) // the field carries tee + 4*kind
 	sc.tee %= 4
 	sc.explicit = f[1] == "1"
 	sc.domain, _ = strconv.Atoi(f[2])
@@ -363,6 +471,10 @@ func parseScenario(f []string) (sc scenario, err error) {
 		for _, s := range strings.Split(f[6], ",") {
 			if s == "J" {
 				sc.prot = append(sc.prot, pu{junk: true})
+				continue
+			}
+			if s == "C1" || s == "C2" {
+				sc.prot = append(sc.prot, pu{junk: true, cert: int(s[1] - '0')})
 				continue
 			}
 			u, err := parseUnit(s)
@@ -409,6 +521,58 @@ func (u unit) bytes(sc *scenario) []byte {
 	}
 	dom := domains[sc.remote] // the peer is the remote entity: its headers come from there
 	own := sc.originStr()
+	if sc.ws() {
+		// RFC 7395 framing: the header is an <open/> document, every other top-level element
+		// declares what it needs itself
+		const open = "<open xmlns='urn:ietf:params:xml:ns:xmpp-framing'"
+		switch u.kind {
+		case 'H':
+			if u.ok {
+				switch u.variant % 3 {
+				case 0:
+					return []byte(fmt.Sprintf(`%s version='1.0' id='sid' from='%s' to='%s'/>`, open, dom, own))
+				case 1:
+					return []byte(fmt.Sprintf(`%s version='1.0' id='sid' from='%s'></open>`, open, dom))
+				default:
+					return []byte(fmt.Sprintf(`<open from='%s' id='x' version='1.0' xmlns="urn:ietf:params:xml:ns:xmpp-framing"/>`, dom))
+				}
+			}
+			switch u.variant % 4 {
+			case 0: // wrong origin
+				return []byte(fmt.Sprintf(`%s version='1.0' id='sid' from='evil.example' to='%s'/>`, open, own))
+			case 1: // no stream id
+				return []byte(fmt.Sprintf(`%s version='1.0' from='%s'/>`, open, dom))
+			case 2: // unsupported version
+				return []byte(fmt.Sprintf(`%s version='0.9' id='sid' from='%s'/>`, open, dom))
+			default: // the header of the other framing
+				return []byte(fmt.Sprintf(`<stream:stream xmlns='%s' xmlns:stream='http://etherx.jabber.org/streams' version='1.0' id='sid' from='%s'>`, ns, dom))
+			}
+		case 'A':
+			var b strings.Builder
+			b.WriteString(open + " version='1.0' id='sid'")
+			switch u.from {
+			case 1:
+				fmt.Fprintf(&b, ` from='%s'`, dom)
+			case 2:
+				fmt.Fprintf(&b, ` from='%s'`, domains[(sc.remote+1)%4])
+			case 3:
+				b.WriteString(` from='evil.example'`)
+			}
+			if u.hasTo {
+				fmt.Fprintf(&b, ` to='%s'`, sc.addrStr(u.to))
+			}
+			b.WriteString("/>")
+			return []byte(b.String())
+		case 'L':
+			tcp := *sc
+			tcp.ck = 0
+			b := u.bytes(&tcp)
+			return append([]byte("<stream:features xmlns:stream='http://etherx.jabber.org/streams'>"), b[len("<stream:features>"):]...)
+		case 'E':
+			// (there is no header element that could have declared the prefix)
+			u.kind = 'D'
+		}
+	}
 	switch u.kind {
 	case 'H':
 		if u.ok {
@@ -497,12 +661,17 @@ func (u unit) bytes(sc *scenario) []byte {
 		return []byte("<failure xmlns='" + nsTLS + "'/>")
 	case 'E':
 		return []byte("<stream:error><host-unknown xmlns='urn:ietf:params:xml:ns:xmpp-streams'/></stream:error>")
+	case 'D':
+		return []byte("<stream:error xmlns:stream='http://etherx.jabber.org/streams'><host-unknown xmlns='urn:ietf:params:xml:ns:xmpp-streams'/></stream:error>")
 	case 'G':
 		return []byte("<continue xmlns='" + nsTLS + "'/>")
 	case 'O':
+		if u.pad > 0 {
+			return []byte("<proceed xmlns='urn:x:elsewhere' pad='" + strings.Repeat("x", u.pad) + "'/>")
+		}
 		return []byte("<proceed xmlns='urn:x:elsewhere'/>")
 	case 'W':
-		return []byte(" \n")
+		return []byte(strings.Repeat(" ", u.pad) + " \n")
 	case 'M':
 		return []byte("<<")
 	}
@@ -518,9 +687,9 @@ type pick struct {
 
 type result struct {
 	advIDs   []int
-	local    string // T<code>: what LocalAddr() returns after the call (T- : no session value)
-	remoteCh string // "" or what RemoteAddr() returns when it is not the address the session was created with
-	callerCh string // "" or how the caller's own JID values (the arguments of NewSession) were changed
+	local    string   // T<code>: what LocalAddr() returns after the call (T- : no session value)
+	remoteCh string   // "" or what RemoteAddr() returns when it is not the address the session was created with
+	callerCh string   // "" or how the caller's own JID values (the arguments of NewSession) were changed
 	adv      string   // A<ids>: what Session.Feature reports as advertised after the call
 	hello    string   // N<name> when a ClientHello left during NewSession, else ""
 	clearEv  []string // what the client wrote in clear text, classified
@@ -621,7 +790,9 @@ func classify(b []byte) []string {
 		switch {
 		case name == "stream:stream":
 			ev = append(ev, "h")
-		case name == "/stream:stream":
+		case name == "open" && strings.Contains(tag, "urn:ietf:params:xml:ns:xmpp-framing"):
+			ev = append(ev, "h") // the header of the WebSocket framing
+		case name == "/stream:stream", name == "close" && strings.Contains(tag, "urn:ietf:params:xml:ns:xmpp-framing"):
 			ev = append(ev, "c")
 		case name == "starttls" && (strings.Contains(tag, "'"+nsTLS+"'") || strings.Contains(tag, `"`+nsTLS+`"`)) && strings.HasSuffix(tag, "/"):
 			ev = append(ev, "s")
@@ -678,7 +849,46 @@ func (c *ctx) tlsConfig(explicit bool) *tls.Config {
 //	2  a clear-text net.Conn wrapper that has a ConnectionState() method (a byte counter, a
 //	   logging connection): it satisfies the library's tlsConn interface and is not TLS
 //	3  a real *tls.Conn (client side, handshake not yet performed): already secure
-var connKinds = []string{"net.Conn", "io.ReadWriter", "net.Conn+ConnectionState()", "*tls.Conn"}
+//
+// WebSocket framing (the negotiator of the websocket package; the carrier is clear text):
+//
+//	4  a net.Conn
+//	5  a plain io.ReadWriter
+//	6  a client *websocket.Conn (x/net/websocket, after a real opening handshake) whose location
+//	   is a ws: URL and whose origin is an http: URL
+//	7  the same with an https: origin — the origin says nothing about the transport
+//	8  the same with a wss: origin
+//
+// On 6 and 7 the session is created with websocket.NewSession (which decides itself whether the
+// session starts Secure) when the scenario has what that function fixes: no tee, initial state
+// 0, remote domain = own domain; otherwise with xmpp.NewSession and websocket.Negotiator.
+var connKinds = []string{"net.Conn", "io.ReadWriter", "net.Conn+ConnectionState()", "*tls.Conn",
+	"ws-framing/net.Conn", "ws-framing/io.ReadWriter", "ws-framing/*websocket.Conn(origin http, location ws)", "ws-framing/*websocket.Conn(origin https, location ws)",
+	"ws-framing/*websocket.Conn(origin wss, location ws)"}
+
+// ws: the session uses the WebSocket framing
+func (sc *scenario) ws() bool { return sc.ck >= 4 }
+
+// wsConn: the session is created on a *websocket.Conn
+func (sc *scenario) wsConn() bool { return sc.ck >= 6 }
+
+// wsEntry: the session is created by websocket.NewSession itself
+func (sc *scenario) wsEntry() bool {
+	return sc.wsConn() && sc.tee == 0 && sc.state0 == 0 && sc.remote == sc.domain
+}
+
+var wsOrigins = map[int]string{6: "http://", 7: "https://", 8: "wss://"}
+
+// dialWS performs the opening handshake of a client *websocket.Conn on the wire (whose other end
+// answers it) for the given origin and location URLs.
+func dialWS(w *wire, origin, location string) (*websocket.Conn, error) {
+	cfg, err := websocket.NewConfig(location, origin)
+	if err != nil {
+		return nil, err
+	}
+	cfg.Protocol = []string{"xmpp"}
+	return websocket.NewClient(cfg, clientConn{w})
+}
 
 type plainRW struct{ c clientConn }
 
@@ -720,6 +930,14 @@ func (c *ctx) conn(sc scenario, w *wire) io.ReadWriter {
 		return &stateConn{Conn: base}
 	case 3:
 		return tls.Client(base, &tls.Config{ServerName: domains[sc.domain], RootCAs: c.pki.pool, MinVersion: tls.VersionTLS12})
+	case 5:
+		return plainRW{base}
+	case 6, 7, 8:
+		wc, err := dialWS(w, wsOrigins[sc.ck]+domains[sc.domain], "ws://"+domains[sc.remote]+"/xmpp-websocket")
+		if err != nil {
+			panic("c02: WebSocket opening handshake on the scripted wire: " + err.Error())
+		}
+		return wc
 	}
 	return base
 }
@@ -775,8 +993,6 @@ func newSharedNeg(tee int) *sharedNeg {
 }
 
 func (c *ctx) exec1(sc scenario, base *xmpp.StreamFeature, shared *sharedNeg) (res result) {
-	// an XML declaration is only legal at the very start of a document: a header that
-	// follows white space is spelled without one
 	prevW := false
 	spell := func(u unit) []byte {
 		if u.kind == 'H' && u.ok && prevW {
@@ -785,11 +1001,12 @@ func (c *ctx) exec1(sc scenario, base *xmpp.StreamFeature, shared *sharedNeg) (r
 		prevW = u.kind == 'W'
 		return u.bytes(&sc)
 	}
+	sp := sc.spelled()
 	var clear [][]byte
 	for i, seg := range sc.clear {
 		var b []byte
-		for k, u := range seg {
-			ub := spell(u)
+		for k := range seg {
+			ub := sp[i][k]
 			if k == 0 && i > 0 && i < len(sc.split) && sc.split[i] > 0 && len(ub) > 1 && len(clear[i-1]) > 0 {
 				n := sc.split[i]
 				if n > len(ub)-1 {
@@ -804,11 +1021,14 @@ func (c *ctx) exec1(sc scenario, base *xmpp.StreamFeature, shared *sharedNeg) (r
 	}
 	prevW = false
 	w := newWire(clear)
-	peer := &tlsPeer{w: w, cfg: c.pki.server}
+	if sc.wsConn() {
+		w = newWSWire(clear)
+	}
+	peer := &tlsPeer{w: w, cfg: c.pki.server, bad: []*tls.Config{nil, c.pki.wrongName, c.pki.unknownCA}}
 	var items []pitem
 	for _, p := range sc.prot {
 		if p.junk {
-			items = append(items, pitem{junk: true, b: []byte("<stream:features/> this is not a TLS record")})
+			items = append(items, pitem{junk: true, cert: p.cert, b: []byte("<stream:features/> this is not a TLS record")})
 		} else {
 			items = append(items, pitem{b: spell(p.u)})
 		}
@@ -907,7 +1127,7 @@ func (c *ctx) exec1(sc scenario, base *xmpp.StreamFeature, shared *sharedNeg) (r
 		features = append(features, f)
 	}
 	teeIn, teeOut := &common.SafeBuffer{}, &common.SafeBuffer{}
-	neg := xmpp.NewNegotiator(func(*xmpp.Session, *xmpp.StreamConfig) xmpp.StreamConfig {
+	cfgFn := func(*xmpp.Session, *xmpp.StreamConfig) xmpp.StreamConfig {
 		cfg := xmpp.StreamConfig{Features: features}
 		if sc.tee&1 != 0 {
 			cfg.TeeIn = teeIn
@@ -916,7 +1136,11 @@ func (c *ctx) exec1(sc scenario, base *xmpp.StreamFeature, shared *sharedNeg) (r
 			cfg.TeeOut = teeOut
 		}
 		return cfg
-	})
+	}
+	neg := xmpp.NewNegotiator(cfgFn)
+	if sc.ws() {
+		neg = xmppws.Negotiator(cfgFn)
+	}
 	if shared != nil {
 		shared.mu.Lock()
 		shared.feats[sc.originStr()] = features
@@ -932,6 +1156,12 @@ func (c *ctx) exec1(sc scenario, base *xmpp.StreamFeature, shared *sharedNeg) (r
 	defer cancel()
 	ok := common.WithTimeout(10*time.Second, func() {
 		res.panicked = common.Recover(func() {
+			if sc.wsEntry() && shared == nil {
+				// the entry point of the websocket package: it builds the negotiator and
+				// decides from the connection whether the session starts Secure
+				s, err = xmppws.NewSession(cctx, sc.origin(), c.conn(sc, w), features...)
+				return
+			}
 			s, err = xmpp.NewSession(cctx, sc.location(), sc.origin(), c.conn(sc, w), xmpp.SessionState(sc.state0), neg)
 		})
 	})
